@@ -198,6 +198,16 @@ func driveIter(it *pebble.Iterator) ([]hx.KV, error) {
 
 // apply executes one symbol: a write/maintenance op of hx, or a reader-management symbol.
 func (r *run) apply(i int, op hx.Op) (skip bool, err error) {
+	skip, err = r.apply1(i, op)
+	if err == nil && !skip && r.cfg.Auto() {
+		// also after reader-management symbols: closing a snapshot resolves pending deletion hints
+		// and schedules delete-only compactions
+		r.x.D.VerifWaitIdle()
+	}
+	return skip, err
+}
+
+func (r *run) apply1(i int, op hx.Op) (skip bool, err error) {
 	d := r.x.D
 	count := func(kind string) int {
 		n := 0
